@@ -437,6 +437,21 @@ def opt_combinators(E, frame, b, t, sts, c, quiet):
             ci, body = ci_body
             s2, r = E.run_closure_any(frame, b, t, s2, ci, body, quiet, arg_vals=argv)
             return r
+        if item in ('map', 'and_then') and cls and hasattr(E, 'run_closure_once'):
+            # the closure runs exactly once on the good payload: its return paths stay separate states
+            if bad in vs:
+                s_bad = st.copy() if good in vs else st
+                E.write_dest(s_bad, frame, t, ('E', None, ((bad, vs[bad] if (is_res or item == 'map') else ()),)))
+                out.append(s_bad)
+            if good in vs:
+                ci, body = cls[0]
+                for s_i, r_i in E.run_closure_once(frame, b, t, st, ci, body, quiet, [vs[good][0]]):
+                    r_i = E.deep_resolve(s_i, r_i) if r_i[0] in ('I', 'F', 'E', 'A') else r_i
+                    if r_i == BOT:
+                        continue
+                    E.write_dest(s_i, frame, t, ('E', None, ((good, (r_i,)),)) if item == 'map' else r_i)
+                    out.append(s_i)
+            continue
         if item == 'map':
             parts = []
             if bad in vs:
@@ -1993,8 +2008,33 @@ def _iter_payload(v):
 
 def _iter_items(v):
     if v[0] == 'O' and v[1] == 'iter' and len(v[2]) > 2:
+        if len(v[2]) > 4:
+            return None         # a pending filter: the items are only a superset (see _iter_filtered)
         return v[2][2]
     return None
+
+
+def _iter_filtered(v):
+    """(items, position, pending filter or None) of a literal iterator, also behind a lazy `filter`"""
+    if v[0] == 'O' and v[1] == 'iter' and len(v[2]) > 3 and v[2][2] is not None:
+        return v[2][2], v[2][3], (v[2][4] if len(v[2]) > 4 else None)
+    return None
+
+
+def split_bool(E, st, v):
+    """[(state, truth)] for a boolean abstract value"""
+    v = E.scalar(st, v, E.types.by_name('bool'))
+    if v[0] != 'I':
+        return [(st, None)]
+    if v[1] == v[2]:
+        return [(st, bool(v[1]))]
+    out = []
+    for truth in (True, False):
+        s2 = st.copy()
+        ok = E.assume(s2, v[4], truth) if v[4] is not None else True
+        if ok:
+            out.append((s2, truth))
+    return out
 
 
 def _range_as_iter(E, st, frame, t, v):
@@ -2065,6 +2105,11 @@ def iter_adaptors(E, frame, b, t, sts, c, quiet):
                 res = ('O', 'iter', (r if r != BOT else ('T', None, None), ln))
             else:
                 res = ('T', dty, E.site(frame, b, 'ia'))
+        elif item == 'filter' and cls and _iter_items(args[0]) is not None and len(args[0][2]) == 4:
+            # literal source: the predicate is applied element by element when the iterator is consumed
+            ci, body = cls[0]
+            its, pos0 = args[0][2][2], args[0][2][3]
+            res = ('O', 'iter', (el, mk_int(0, ln[2]), its, pos0, ('filter', body['id'], E.operand(s2, frame, t['args'][ci]))))
         elif item in ('filter', 'take_while', 'skip_while', 'inspect') and cls:
             ci, body = cls[0]
             cell = ('h', E.site(frame, b, 'fe'))
@@ -2144,6 +2189,63 @@ def iter_consumers(E, frame, b, t, sts, c, quiet):
                 E.write_dest(s2, frame, t, res)
                 out.append(s2)
                 continue
+        flt = _iter_filtered(itv)
+        if flt is not None and item in ('find', 'find_map') and cls and len(flt[0]) - flt[1] <= 40:
+            # literal container: run the search element by element, one state per way it can end
+            its, pos0, pend = flt
+            ci, body = cls[0]
+            fbody = E.prog.bodies.get(pend[1]) if pend is not None else None
+            cont = [s2]
+            n_it = 0
+            for it in its[pos0:]:
+                n_it += 1
+                nxt = []
+                for sc in cont:
+                    cands = [sc]
+                    if pend is not None:
+                        cands = []
+                        cell = ('h', E.site(frame, b, ('flt', n_it)))
+                        sc.cells[cell] = it
+                        for s_f, r_f in E.run_closure_once(frame, b, t, sc, None, fbody, quiet, [('R', cell, (), False)], env_val=pend[2]):
+                            for s_g, truth in split_bool(E, s_f, r_f):
+                                if truth is None or truth:
+                                    cands.append(s_g)
+                                if truth is None or not truth:
+                                    nxt.append(s_g if truth is not None else s_g.copy())
+                    for s_c in cands:
+                        if item == 'find':
+                            cell = ('h', E.site(frame, b, ('fnd', n_it)))
+                            s_c.cells[cell] = it
+                            for s_f, r_f in E.run_closure_once(frame, b, t, s_c, ci, body, quiet, [('R', cell, (), False)]):
+                                for s_g, truth in split_bool(E, s_f, r_f):
+                                    if truth is None or truth:
+                                        s_h = s_g if truth else s_g.copy()
+                                        E.write_dest(s_h, frame, t, ('E', None, ((1, (it,)),)))
+                                        out.append(s_h)
+                                    if truth is None or not truth:
+                                        nxt.append(s_g)
+                        else:
+                            for s_f, r_f in E.run_closure_once(frame, b, t, s_c, ci, body, quiet, [it]):
+                                vs_ = enum_variants(E, s_f, r_f)
+                                if vs_ is None:
+                                    s_h = s_f.copy()
+                                    E.write_dest(s_h, frame, t, E.expand(('T', dty, E.site(frame, b, 'fm'))))
+                                    out.append(s_h)
+                                    nxt.append(s_f)
+                                    continue
+                                if 1 in vs_:
+                                    s_h = s_f if 0 not in vs_ else s_f.copy()
+                                    E.write_dest(s_h, frame, t, ('E', None, ((1, tuple(vs_[1])),)))
+                                    out.append(s_h)
+                                if 0 in vs_:
+                                    nxt.append(s_f)
+                cont = E.limit(nxt, site=(frame.pathid, b, ('find', n_it)), depth=frame.depth) if len(nxt) > 1 else nxt
+                if not cont:
+                    break
+            for sc in cont:
+                E.write_dest(sc, frame, t, ('E', None, ((0, ()),)))
+                out.append(sc)
+            continue
         if p is not None:
             el, ln = p
             if item == 'nth' and items is not None and len(itv[2]) > 3 and len(args) > 1:
